@@ -9,17 +9,18 @@ agree.  M-SOLVE stays on as an assistant."""
 import json
 
 from ..monitors import msolve
-from ..refs import rules
+from ..refs import planted, rules
 
-RULE = ("per puzzle module: random instances on boards up to 9 cells (loop puzzles 12; thorough 12/16) incl. non-square and 1xN shapes, clue "
+RULE = ("(a) per puzzle module: random instances on boards up to 9 cells (loop puzzles 12; thorough 12/16) incl. non-square and 1xN shapes, clue "
         "layouts random over the format's clue alphabet incl. zero clues and clues on edges/corners; ground truth = exhaustive enumeration of "
         "the candidate answer space (colourings, lattice cycles, Latin squares, connected partitions, triangle assignments) filtered by the "
         "published rules; one evaluation = one instance compared (is_sat and every answer cell); distinct by (puzzle, instance); non-trivial "
-        "when the instance has at least one clue/room boundary and was judged")
+        "when the instance has at least one clue/room boundary and was judged; (b) for 16 puzzles additionally instances on 4x4..7x7 (sudoku 9x9) "
+        "boards built around a planted rule-obeying grid: the solver must report a solution and every decided cell must carry the planted value")
 ASSUMPTIONS = ["rule readings as tabulated in DESIGN.md Appendix A; instances on which the readings of a rule disagree are counted as unjudged_ambiguous",
                "fivecells: the returned border array follows the module's edge order (cells row-major, down-neighbour before right-neighbour)",
                "unpublished format values (nurimisaki clue 1, checkered fillomino, castle-wall colours on non-clue cells, inconsistent simpleloop pivot) are not generated"]
-REQUIRED = ["c11.judged"] + ["c11.judged." + n for n in rules.PUZZLES] + ["c11.sat", "c11.unsat", "c11.undecided_cells", "c11.decided_cells", "c11.nonsquare"]
+REQUIRED = ["c11.judged", "c11.planted", "c11.planted_decided_cells"] + ["c11.planted." + n for n in planted.PLANTERS] + ["c11.judged." + n for n in rules.PUZZLES] + ["c11.sat", "c11.unsat", "c11.undecided_cells", "c11.decided_cells", "c11.nonsquare"]
 INCONCLUSIVE_CAP = 0.05
 
 
@@ -99,6 +100,38 @@ def judge(ctx, name, inst):
             return
 
 
+def judge_planted(ctx, name, inst, sol):
+    """Boards too large to enumerate: the instance was built around a rule-obeying grid (partial, sound oracle)."""
+    spec = rules.PUZZLES[name]
+    ctx.current_case = {"puzzle": name, "instance": inst, "planted": True}
+    sc = shape_class(inst)
+    try:
+        is_sat, got = spec.solve(inst)
+    except Exception as e:
+        ctx.case(["planted", name, inst], nontrivial=True)
+        ctx.violation(f"{name}:raises:{type(e).__name__}:{sc}", f"solve_{name} raised {e!r} on a well-formed instance", ctx.current_case)
+        return
+    ctx.case(["planted", name, inst], nontrivial=True)
+    ctx.count("c11.planted")
+    ctx.count("c11.planted." + name)
+    if not is_sat:
+        ctx.violation(f"{name}:wrong-sat:claims-none:{sc}:planted", f"solve_{name} reports no solution for an instance built around a rule-obeying grid",
+                      dict(ctx.current_case, planted_solution=sol))
+        return
+    if set(got) != set(sol):
+        ctx.violation(f"{name}:answer-shape", "answer cells differ from the board's cells", ctx.current_case)
+        return
+    for k, v in got.items():
+        if v is None:
+            ctx.count("c11.planted_undecided_cells")
+            continue
+        ctx.count("c11.planted_decided_cells")
+        if v != sol[k] or type(v) is not type(sol[k]):
+            ctx.violation(f"{name}:cell-wrong-value:{sc}:planted", f"solve_{name}: cell {k} decided as {v!r} but the planted rule-obeying grid has {sol[k]!r}",
+                          dict(ctx.current_case, cell=k, planted_solution=sol))
+            return
+
+
 def run(ctx):
     rng = ctx.rng
     msolve.install(ctx, owner="C01", brute_cap=64)
@@ -112,11 +145,22 @@ def run(ctx):
                 judge(ctx, name, inst)
             if t == 0 and ctx.shard == 0 and name in ("slitherlink", "heyawake"):
                 ctx.sample({"puzzle": name, "instance": inst})
+    for t in range(1 if not thorough else 12):
+        for name in planted.PLANTERS:
+            r = planted.plant(name, rng)
+            if r is None:
+                ctx.count("c11.planting_failed")
+                continue
+            with ctx.guard(300):
+                judge_planted(ctx, name, r[0], r[1])
     msolve.uninstall()
 
 
 def replay(w, ctx):
     msolve.install(ctx, owner="C01", brute_cap=64)
+    if w.get("planted"):
+        judge_planted(ctx, w["puzzle"], w["instance"], w["planted_solution"])
+        return
     judge(ctx, w["puzzle"], w["instance"])
     spec = rules.PUZZLES[w["puzzle"]]
     print(json.dumps({"truth_counts": {r: len(s) for r, s in (spec.truth(w["instance"]) or {}).items()}}))
